@@ -238,16 +238,18 @@ def unchanged(ctx, A, dA0, what):
 
 # ------------------------------------------------------------------------------------------------------------------
 QLR_MODES = ('none', 'L', 'R', 'both', 'bad')
+# (use qtotal_Q, inner_qconj, inner_labels): pairwise covering
+QR_COMBOS = ((False, 1, [None, None]), (True, -1, ['iL', 'iR']), (True, 1, [None, None]), (False, -1, ['iL', 'iR']))
 
 
 def svd_case(ctx, tier, struct, mods=None, qconjs=(1, -1), cplx=False, subset='all', qtotal='zero', full_matrices=False,
-             compute_uv=True, cutoff=False):
+             compute_uv=True, cutoff=False, qlr=None):
     N = npc()
     A, ch = build(ctx, tier, struct, mods, qconjs, cplx, subset, qtotal)
     dA = D(A)
-    mode = QLR_MODES[ctx.choice('qLR', len(QLR_MODES))]
-    inner_qconj = 1 - 2 * ctx.choice('iqc', 2)
-    lab = [None, None] if ctx.choice('lab', 2) == 0 else ['iL', 'iR']
+    modes = tuple(qlr) if qlr else QLR_MODES
+    mode = modes[ctx.choice('qLR', len(modes))]
+    inner_qconj, lab = ((1, [None, None]), (-1, ['iL', 'iR']))[ctx.choice('iqc_lab', 2)]
     qL = qvalue(ctx, tier, 'qL', ch) if mode in ('L', 'both', 'bad') else None
     qR = qvalue(ctx, tier, 'qR', ch, 2) if mode == 'R' else None
     if mode == 'both':
@@ -364,11 +366,12 @@ def qr_case(ctx, tier, struct, mods=None, qconjs=(1, -1), cplx=False, subset='al
     N = npc()
     A, ch = build(ctx, tier, struct, mods, qconjs, cplx, subset, qtotal)
     dA = D(A)
-    use_qQ = ctx.choice('useqQ', 2) == 1
-    inner_qconj = 1 - 2 * ctx.choice('iqc', 2)
-    lab = [None, None] if ctx.choice('lab', 2) == 0 else ['iL', 'iR']
+    combos = QR_COMBOS if tier == 'B' else QR_COMBOS[:2]
+    use_qQ, inner_qconj, lab = combos[ctx.choice('opt', len(combos))]
     qQ = qvalue(ctx, tier, 'qQ', ch) if use_qQ else None
-    cut = ctx.real('cutoff', pos=True) if cutoff else None
+    # the cutoff of qr is a fixed small number: the stub forks on the number of kept columns (exact rank), and in the
+    # concrete replays nothing of a generic block is discarded, so Q R == A holds to rounding in both modes
+    cut = 1.e-10 if cutoff else None
     fname = 'lq' if lq else 'qr'
     tag = f'{fname}[mode={mode},cut={int(cutoff)},pos={int(pos_diag)}]'
     blocked = A.legs[0].is_blocked() and A.legs[1].is_blocked()
@@ -558,7 +561,7 @@ def expm_case(ctx, tier, struct, mods=None, qconjs=(1, -1), cplx=False, subset='
 
 
 # ------------------------------------------------------------------------------------------------------------------
-def pinv_case(ctx, tier, struct, mods=None, qconjs=(1, -1), cplx=False, subset='all', qtotal='zero'):
+def pinv_case(ctx, tier, struct, mods=None, qconjs=(1, -1), cplx=False, subset='all', qtotal='zero', mp=True):
     N = npc()
     A, ch = build(ctx, tier, struct, mods, qconjs, cplx, subset, qtotal)
     dA = D(A)
@@ -586,6 +589,8 @@ def pinv_case(ctx, tier, struct, mods=None, qconjs=(1, -1), cplx=False, subset='
     U, S, V = N.svd(A, cutoff=cut)
     dU, dV = D(U), D(V)
     ctx.prove_eq(dP, dag(np.dot(dU * (1. / S)[np.newaxis, :], dV)), 'pinv: equals (U diag(1/S) VH)^dagger of svd(a, cutoff)')
+    if not mp:
+        return
     # Moore-Penrose identities that hold for every cutoff
     AP = np.dot(dA, dP)
     PA = np.dot(dP, dA)
@@ -682,110 +687,212 @@ def ortho_case(ctx, tier, struct, mods=None, qconjs=(1, -1), cplx=False, subset=
 # ------------------------------------------------------------------------------------------------------------------
 def CASES(tier, seed):
     cases = []
-    O = dict(max_paths=60000, max_wall_s=200, validate_paths=2, hard_timeout_s=230, skip_repeated_violation=True)
-    if tier == 'thorough':
-        O = dict(max_paths=400000, max_wall_s=1500, validate_paths=2, hard_timeout_s=1700, skip_repeated_violation=True)
+    thorough = tier == 'thorough'
+    O = dict(max_paths=60000, max_wall_s=500, validate_paths=2, hard_timeout_s=600, skip_repeated_violation=True, ideal_timeout_ms=20000)
+    if thorough:
+        O = dict(max_paths=400000, max_wall_s=1500, validate_paths=2, hard_timeout_s=1700, skip_repeated_violation=True,
+                 ideal_timeout_ms=60000, prove_timeout_ms=120000)
+    seen = set()
 
     def add(fn, name, **params):
-        cases.append(dict(name=name, fn=fn, params=params, opts=dict(O)))
+        if name in seen:
+            return
+        seen.add(name)
+        o = dict(O)
+        if params.get('left'):
+            # every concrete run of polar(left=True) hits the known finding, also on models of paths whose symbolic run ended
+            # early ("no singular value above the cutoff" is a fork on stub outputs): no path-model validation for these cases
+            o['validate_paths'] = 0
+        cases.append(dict(name=name, fn=fn, params=params, opts=o))
 
+    def c_(cplx):
+        return 'c' if cplx else 'r'
+
+    def svd(tr, st, cplx=False, fm=False, uv=True, cut=False, **kw):
+        add('svd_case', f'{tr}.svd[{st},{kw.pop("tag", c_(cplx))},fm={int(fm)},uv={int(uv)},cut={int(cut)}]', tier=tr, struct=st, cplx=cplx,
+            full_matrices=fm, compute_uv=uv, cutoff=cut, **kw)
+
+    def qr(tr, st, cplx=False, mode='reduced', cut=False, pos=False, lq=False, **kw):
+        add('qr_case', f'{tr}.{"lq" if lq else "qr"}[{st},{kw.pop("tag", c_(cplx))},mode={mode},cut={int(cut)},pos={int(pos)}]', tier=tr,
+            struct=st, cplx=cplx, mode=mode, cutoff=cut, pos_diag=pos, lq=lq, **kw)
+
+    def eig(tr, st, cplx=False, herm=True, sort=None, UPLO='L', **kw):
+        nm = f'{tr}.{"eigh" if herm else "eig"}[{st},{kw.pop("tag", c_(cplx))},sort={sort}' + (f',UPLO={UPLO}]' if herm else ']')
+        add('eig_case', nm, tier=tr, struct=st, cplx=cplx, hermitian=herm, sort=sort, UPLO=UPLO, **kw)
+
+    def simple(fn, fname, tr, st, cplx=False, **kw):
+        extra = ''.join(f',{k}={int(v)}' for k, v in kw.items() if k == 'left')
+        add(fn, f'{tr}.{fname}[{st},{kw.pop("tag", c_(cplx))}{extra}]', tier=tr, struct=st, cplx=cplx, **kw)
+
+    B = dict(subset='choose')
+    # ------------------------------------------------------------------ Tier B
+    for cplx in (False, True):
+        for fm, uv, cut in ((False, True, False), (True, True, False), (False, True, True)):
+            svd('B', 'u1', cplx, fm, uv, cut, **B)
+    for fm, uv, cut in ((False, False, False), (False, False, True), (True, False, False), (True, True, True)):
+        svd('B', 'u1', False, fm, uv, cut, **B)
+    for fm, uv, cut in ((False, True, False), (True, True, False), (False, True, True)):
+        svd('B', 'u1_unblocked', False, fm, uv, cut, **B)
+    svd('B', 'u1_unblocked', True, **B)
+    svd('B', 'u1_qtot', False, **B)
+    svd('B', 'u1_qtot', False, fm=True, **B)
+    svd('B', 'u1_qtot', True, cut=True, **B)
+    svd('B', 'z2', False, **B)
+    svd('B', 'z2', False, cut=True, **B)
+    svd('B', 'z3', False, **B)
+    svd('B', 'z3', False, fm=True, **B)
+    svd('B', 'u1z2', False, **B)
+    for mode, pos in itertools.product(('reduced', 'complete'), (False, True)):
+        qr('B', 'u1', False, mode, False, pos, **B)
+        qr('B', 'u1', False, mode, False, pos, lq=True, **B)
+    qr('B', 'u1', False, 'reduced', True, False, **B)
+    qr('B', 'u1', False, 'reduced', True, True, **B)
+    qr('B', 'u1', False, 'complete', True, False, **B)  # (known finding; only on a structure where it is input-determined)
+    qr('B', 'u1', False, 'reduced', True, False, lq=True, **B)
+    qr('B', 'u1', True, 'reduced', False, True, **B)
+    qr('B', 'u1', True, 'complete', False, False, **B)
+    for mode, cut, pos in (('reduced', False, False), ('complete', False, False), ('reduced', False, True), ('reduced', True, False)):
+        qr('B', 'u1_unblocked', False, mode, cut, pos, **B)
+    qr('B', 'u1_unblocked', False, lq=True, **B)
+    qr('B', 'u1_qtot', False, **B)
+    qr('B', 'u1_qtot', False, 'complete', False, True, **B)
+    qr('B', 'u1_qtot', True, **B)
+    qr('B', 'z2', False, **B)
+    qr('B', 'z2', False, 'complete', **B)
+    qr('B', 'z2', False, 'complete', lq=True, **B)
+    qr('B', 'z3', False, 'complete', **B)
+    qr('B', 'z3', False, 'reduced', False, True, **B)
+    qr('B', 'u1z2', False, **B)
+    for st, cplx in (('u1', False), ('u1', True), ('u1_unblocked', False), ('u1_qtot', False), ('z2', False), ('z3', False), ('u1z2', False)):
+        simple('pinv_case', 'pinv', 'B', st, cplx, **B)
+        simple('polar_case', 'polar', 'B', st, cplx, left=False, **B)
+    simple('polar_case', 'polar', 'B', 'sq_u1', False, left=False, **B)
+    for st, cplx in (('u1', False), ('u1', True), ('u1_unblocked', False), ('z2', False)):
+        simple('polar_case', 'polar', 'B', st, cplx, left=True, **B)
+    for sort in SORTS:
+        eig('B', 'sq_u1', False, True, sort, **B)
+        eig('B', 'sq_u1', False, False, sort, **B)
+    for sort in (None, 'm>'):
+        eig('B', 'sq_u1', False, True, sort, 'U', **B)
+        eig('B', 'sq_u1', True, False, sort, **B)
+    for sort in (None, 'm>', '<'):
+        eig('B', 'sq_u1', True, True, sort, **B)
+    for sort in (None, 'm<', '>'):
+        eig('B', 'sq_u1_unblocked', False, True, sort, **B)
+    for sort in (None, '<'):
+        eig('B', 'sq_u1_unblocked', False, False, sort, **B)
+        eig('B', 'sq_u1z2', False, True, sort, **B)
+    eig('B', 'sq_z3', False, True, None, **B)
+    eig('B', 'sq_z3', False, True, 'm>', 'U', **B)
+    eig('B', 'sq_z3', False, False, '>', **B)
+    eig('B', 'sq_u1z2', False, False, None, **B)
+    for st in ('sq_u1', 'sq_u1_unblocked', 'sq_z3', 'sq_u1z2'):
+        simple('expm_case', 'expm', 'B', st, False, **B)
+        add('eig_qtotal_case', f'B.eig-qtotal[{st}]', tier='B', struct=st)
+    simple('expm_case', 'expm', 'B', 'sq_u1', True, **B)
+    simple('expm_case', 'expm', 'B', 'sq_u1_unblocked', True, **B)
+    for st, cplx in (('tall_u1', False), ('tall_u1', True), ('tall_unblocked', False), ('u1', False), ('sq_u1', False)):
+        simple('ortho_case', 'orthogonal_columns', 'B', st, cplx, **B)
+    # ------------------------------------------------------------------ Tier A (symbolic charges)
+    for mods in ([1], [3], [2]):
+        full = mods != [2]
+        for qc in ((1, -1), (1, 1), (-1, 1)):
+            if qc != (1, -1) and mods != [1]:
+                continue
+            kw = dict(mods=mods, qconjs=list(qc), qtotal='sym', tag=f'mod={mods},qconj={qc}')
+            svd('A', 'a22', **kw)
+            qr('A', 'a22', **kw)
+            if qc != (1, -1) or not full:
+                continue
+            lite = {} if thorough else dict(qlr=['none', 'both'])
+            svd('A', 'a22', fm=True, **lite, **kw)
+            if mods == [1] or thorough:
+                svd('A', 'a22', cut=True, **lite, **kw)
+            qr('A', 'a22', mode='complete', **kw)
+            if mods == [1] or thorough:
+                qr('A', 'a22', pos=True, **kw)
+            qr('A', 'a21', cut=True, **kw)
+            qr('A', 'a22', lq=True, **kw)
+            simple('ortho_case', 'orthogonal_columns', 'A', 'atall', **kw)
+            simple('pinv_case', 'pinv', 'A', 'a21', **kw)
+            simple('polar_case', 'polar', 'A', 'a21' if not thorough else 'a22', left=False, **kw)
+            if mods == [1]:
+                simple('polar_case', 'polar', 'A', 'a21', left=True, **kw)
+        for qc0 in (1, -1):
+            if qc0 == -1 and mods != [1]:
+                continue
+            kw = dict(mods=mods, qconjs=[qc0, -qc0], tag=f'mod={mods},qconj={qc0}')
+            eig('A', 'asq2', **kw)
+            simple('expm_case', 'expm', 'A', 'asq2', **kw)
+            if full:
+                eig('A', 'asq2', herm=False, sort='<', **kw)
+            if mods == [1] and qc0 == 1:
+                eig('A', 'asq2', sort='m>', **kw)
+        add('eig_qtotal_case', f'A.eig-qtotal[asq2,mod={mods}]', tier='A', struct='asq2', mods=mods, qconjs=[1, -1])
+    if not thorough:
+        return cases
+    # ------------------------------------------------------------------ thorough: the full option product and larger shapes
     rect_B = ['u1', 'u1_unblocked', 'u1_qtot', 'z2', 'z3', 'u1z2']
     sq_B = ['sq_u1', 'sq_u1_unblocked', 'sq_z3', 'sq_u1z2']
-    # ---------------- Tier B
     for st in rect_B:
         for cplx in (False, True):
-            c = 'c' if cplx else 'r'
-            if cplx and st in ('z3', 'u1z2') and tier == 'quick':
-                continue
-            for fm, uv, cut in ((False, True, False), (True, True, False), (False, False, False), (False, True, True), (False, False, True),
-                                (True, False, False), (True, True, True)):
-                if (fm and (not uv or cut)) and (st != 'u1' or cplx):
-                    continue
-                add('svd_case', f'B.svd[{st},{c},fm={int(fm)},uv={int(uv)},cut={int(cut)}]', tier='B', struct=st, cplx=cplx,
-                    subset='choose', full_matrices=fm, compute_uv=uv, cutoff=cut)
+            for fm, uv, cut in ((False, True, False), (True, True, False), (False, False, False), (False, True, True), (False, False, True)):
+                svd('B', st, cplx, fm, uv, cut, **B)
             for mode, cut, pos in itertools.product(('reduced', 'complete'), (False, True), (False, True)):
-                for lq in (False, True):
-                    if lq and (st not in ('u1', 'u1_unblocked', 'z2') or cplx):
-                        continue
-                    if cplx and cut and tier == 'quick':
-                        continue
-                    add('qr_case', f'B.{"lq" if lq else "qr"}[{st},{c},mode={mode},cut={int(cut)},pos={int(pos)}]', tier='B', struct=st,
-                        cplx=cplx, subset='choose', mode=mode, cutoff=cut, pos_diag=pos, lq=lq)
-            add('pinv_case', f'B.pinv[{st},{c}]', tier='B', struct=st, cplx=cplx, subset='choose')
-            for left in (False, True):
-                add('polar_case', f'B.polar[{st},{c},left={int(left)}]', tier='B', struct=st, cplx=cplx, subset='choose', left=left)
+                if mode == 'complete' and cut:
+                    continue
+                qr('B', st, cplx, mode, cut, pos, **B)
+                if not cplx:
+                    qr('B', st, cplx, mode, cut, pos, lq=True, **B)
+            simple('pinv_case', 'pinv', 'B', st, cplx, **(dict(B, mp=False) if (cplx and st == 'u1_unblocked') else B))
+            simple('polar_case', 'polar', 'B', st, cplx, left=False, **B)
     for st in sq_B:
         for cplx in (False, True):
-            c = 'c' if cplx else 'r'
             for sort in SORTS:
                 for UPLO in ('L', 'U'):
-                    if UPLO == 'U' and sort not in (None, 'm>'):
-                        continue
-                    add('eig_case', f'B.eigh[{st},{c},sort={sort},UPLO={UPLO}]', tier='B', struct=st, cplx=cplx, subset='choose',
-                        hermitian=True, sort=sort, UPLO=UPLO)
-                if cplx and tier == 'quick' and st not in ('sq_u1', ):
-                    continue
-                add('eig_case', f'B.eig[{st},{c},sort={sort}]', tier='B', struct=st, cplx=cplx, subset='choose', hermitian=False, sort=sort)
-            add('expm_case', f'B.expm[{st},{c}]', tier='B', struct=st, cplx=cplx, subset='choose')
-        add('eig_qtotal_case', f'B.eig-qtotal[{st}]', tier='B', struct=st)
-        add('polar_case', f'B.polar[{st},r,left=1]', tier='B', struct=st, cplx=False, subset='choose', left=True)
-    for st in ('tall_u1', 'tall_unblocked', 'u1', 'sq_u1'):
-        for cplx in (False, True):
-            add('ortho_case', f'B.orthogonal_columns[{st},{"c" if cplx else "r"}]', tier='B', struct=st, cplx=cplx, subset='choose')
-    # ---------------- Tier A (symbolic charges)
-    modsA = ([1], [2], [3])
-    for mods in modsA:
+                    eig('B', st, cplx, True, sort, UPLO, **B)
+                eig('B', st, cplx, False, sort, **B)
+            simple('expm_case', 'expm', 'B', st, cplx, **B)
+    for st in ('tall_u1', 'tall_unblocked'):
+        simple('ortho_case', 'orthogonal_columns', 'B', st, True, **B)
+    for mods in ([1], [2], [3]):
         for qc in ((1, -1), (1, 1), (-1, 1)):
-            m = f'mod={mods},qconj={qc}'
-            if qc != (1, -1) and mods != [1] and tier == 'quick':
-                continue
-            for fm, uv, cut in ((False, True, False), (True, True, False), (False, True, True)):
-                add('svd_case', f'A.svd[a22,{m},fm={int(fm)},uv={int(uv)},cut={int(cut)}]', tier='A', struct='a22', mods=mods, qconjs=qc,
-                    qtotal='sym', full_matrices=fm, compute_uv=uv, cutoff=cut)
+            kw = dict(mods=mods, qconjs=list(qc), qtotal='sym', tag=f'mod={mods},qconj={qc}')
+            for fm, cut in ((False, False), (True, False), (False, True)):
+                svd('A', 'a22', fm=fm, cut=cut, **kw)
             for mode, pos in (('reduced', False), ('complete', False), ('reduced', True)):
-                add('qr_case', f'A.qr[a22,{m},mode={mode},cut=0,pos={int(pos)}]', tier='A', struct='a22', mods=mods, qconjs=qc, qtotal='sym',
-                    mode=mode, pos_diag=pos)
-            add('qr_case', f'A.qr[a21,{m},mode=reduced,cut=1,pos=0]', tier='A', struct='a21', mods=mods, qconjs=qc, qtotal='sym',
-                mode='reduced', cutoff=True)
-            add('qr_case', f'A.lq[a22,{m},mode=reduced,cut=0,pos=0]', tier='A', struct='a22', mods=mods, qconjs=qc, qtotal='sym',
-                mode='reduced', lq=True)
-            add('ortho_case', f'A.orthogonal_columns[atall,{m}]', tier='A', struct='atall', mods=mods, qconjs=qc, qtotal='sym')
-            if qc == (1, -1):
-                add('pinv_case', f'A.pinv[a22,{m}]', tier='A', struct='a22', mods=mods, qconjs=qc, qtotal='sym')
-                for left in (False, True):
-                    add('polar_case', f'A.polar[a22,{m},left={int(left)}]', tier='A', struct='a22', mods=mods, qconjs=qc, qtotal='sym',
-                        left=left)
+                qr('A', 'a22', mode=mode, pos=pos, **kw)
+            qr('A', 'a21', cut=True, **kw)
+            qr('A', 'a22', lq=True, **kw)
+            simple('ortho_case', 'orthogonal_columns', 'A', 'atall', **kw)
+            simple('pinv_case', 'pinv', 'A', 'a22', mp=False, **kw)  # (Moore-Penrose identities of the 3x3 block: solver unknown)
+            simple('pinv_case', 'pinv', 'A', 'a21', **kw)
+            simple('polar_case', 'polar', 'A', 'a22', left=False, **kw)
         for qc0 in (1, -1):
-            m = f'mod={mods},qconj={qc0}'
+            kw = dict(mods=mods, qconjs=[qc0, -qc0], tag=f'mod={mods},qconj={qc0}')
             for sort in (None, 'm>'):
-                add('eig_case', f'A.eigh[asq2,{m},sort={sort}]', tier='A', struct='asq2', mods=mods, qconjs=(qc0, -qc0), hermitian=True,
-                    sort=sort)
-            add('eig_case', f'A.eig[asq2,{m},sort=<]', tier='A', struct='asq2', mods=mods, qconjs=(qc0, -qc0), hermitian=False, sort='<')
-            add('expm_case', f'A.expm[asq2,{m}]', tier='A', struct='asq2', mods=mods, qconjs=(qc0, -qc0))
-        add('eig_qtotal_case', f'A.eig-qtotal[asq2,mod={mods}]', tier='A', struct='asq2', mods=mods, qconjs=(1, -1))
-    if tier == 'thorough':
-        for mods in ([1], [3], [1, 2]):
-            m = f'mod={mods}'
-            sh = 'a33' if len(mods) == 1 else 'a22'
-            add('svd_case', f'A.svd[{sh},{m},fm=0,uv=1,cut=0]', tier='A', struct=sh, mods=mods, qtotal='sym')
-            add('svd_case', f'A.svd[{sh},{m},fm=1,uv=1,cut=0]', tier='A', struct=sh, mods=mods, qtotal='sym', full_matrices=True)
-            add('qr_case', f'A.qr[{sh},{m},mode=complete,cut=0,pos=0]', tier='A', struct=sh, mods=mods, qtotal='sym', mode='complete')
-            add('qr_case', f'A.qr[{sh},{m},mode=reduced,cut=0,pos=1]', tier='A', struct=sh, mods=mods, qtotal='sym', pos_diag=True)
-            shs = 'asq3' if len(mods) == 1 else 'asq2'
-            add('eig_case', f'A.eigh[{shs},{m},sort=None]', tier='A', struct=shs, mods=mods, hermitian=True)
-            add('expm_case', f'A.expm[{shs},{m}]', tier='A', struct=shs, mods=mods)
-        for mods in ([1], [2]):
-            add('svd_case', f'A.svd[a22,mod={mods},complex]', tier='A', struct='a22', mods=mods, qtotal='sym', cplx=True)
-            add('eig_case', f'A.eigh[asq2,mod={mods},complex]', tier='A', struct='asq2', mods=mods, hermitian=True, cplx=True)
-        for st, sq in (('u1_big', False), ('sq_u1_big', True)):
-            for cplx in (False, True):
-                c = 'c' if cplx else 'r'
-                if not sq:
-                    add('svd_case', f'B.svd[{st},{c},fm=0,uv=1,cut=0]', tier='B', struct=st, cplx=cplx, subset='choose')
-                    add('svd_case', f'B.svd[{st},{c},fm=0,uv=1,cut=1]', tier='B', struct=st, cplx=cplx, subset='all', cutoff=True)
-                    add('qr_case', f'B.qr[{st},{c},mode=reduced,cut=0,pos=1]', tier='B', struct=st, cplx=cplx, subset='choose', pos_diag=True)
-                    add('polar_case', f'B.polar[{st},{c},left=0]', tier='B', struct=st, cplx=cplx, subset='all')
-                else:
-                    add('eig_case', f'B.eigh[{st},{c},sort=None,UPLO=L]', tier='B', struct=st, cplx=cplx, subset='choose', hermitian=True)
-                    add('expm_case', f'B.expm[{st},{c}]', tier='B', struct=st, cplx=cplx, subset='choose')
+                eig('A', 'asq2', sort=sort, **kw)
+            eig('A', 'asq2', herm=False, sort='<', **kw)
+    for mods in ([1], [3], [1, 2]):
+        sh = 'a33' if len(mods) == 1 else 'a22'
+        shs = 'asq3' if len(mods) == 1 else 'asq2'
+        kw = dict(mods=mods, qconjs=[1, -1], qtotal='sym', tag=f'mod={mods}')
+        lite = dict(qlr=['none', 'both']) if sh == 'a33' else {}
+        svd('A', sh, **lite, **kw)
+        svd('A', sh, fm=True, **lite, **kw)
+        qr('A', sh, mode='complete', **kw)
+        qr('A', sh, pos=True, **kw)
+        kw = dict(mods=mods, qconjs=[1, -1], tag=f'mod={mods}')
+        eig('A', shs, **kw)
+        simple('expm_case', 'expm', 'A', shs, **kw)
+    for mods in ([1], [2]):
+        svd('A', 'a22', cplx=True, mods=mods, qconjs=[1, -1], qtotal='sym', tag=f'mod={mods},complex')
+        eig('A', 'asq2', cplx=True, mods=mods, qconjs=[1, -1], tag=f'mod={mods},complex')
+    for cplx in (False, True):
+        svd('B', 'u1_big', cplx, **B)
+        svd('B', 'u1_big', cplx, cut=True, subset='all')
+        qr('B', 'u1_big', cplx, pos=True, **B)
+        simple('polar_case', 'polar', 'B', 'u1_big', cplx, left=False, subset='all')
+        eig('B', 'sq_u1_big', cplx, **B)
+        simple('expm_case', 'expm', 'B', 'sq_u1_big', cplx, **B)
     return cases
